@@ -317,6 +317,9 @@ FIXED = {
     "tuple_bad_target": lambda n: "(" * n + "a, 1," + ")" * n + " = 1\n",
     "unclosed_paren": lambda n: "x = " + "(" * n + "a\n",
     "unclosed_subproc": lambda n: "$(" * n + "ls\n",
+    "subproc_wrong_closer": lambda n: "$(a " * n + "]" + ")" * n + "\n",
+    "subproc_bang_wrong_closer": lambda n: "![a " * n + ")" + "]" * n + "\n",
+    "subproc_inject_wrong_closer": lambda n: "$(ls " + "@$(a " * n + "}" + ")" * n + ")\n",
     "chain_trailing_op": lambda n: "x = " + " + ".join(["a"] * n) + " +\n",
     "args_bad_tail": lambda n: "f(" + ",".join(["a"] * n) + " b)\n",
     "stmts_then_error": lambda n: "a = 1\n" * n + "b c\n",
@@ -521,6 +524,10 @@ SUBPROC_OPENERS = ("$(", "$[", "![", "!(", "@$(")
 @known.matcher
 def invalid_input_with_subprocess_wrapper(case, signature, detail):
     """D42: rejected input nested through a subprocess bracket grows quadratically (never hits the cap)"""
-    if case.get("klass") != "invalid" or "cap-exceeded" in signature or case.get("kind") != "pattern":
+    if case.get("klass") != "invalid" or "cap-exceeded" in signature:
+        return False
+    if case.get("kind") == "fixed":  # the fixed families that are exactly this shape (exponential growth would still hit the cap)
+        return case.get("name", "").startswith("subproc_") and case.get("name", "").endswith("wrong_closer")
+    if case.get("kind") != "pattern":
         return False
     return any(any(op in u[0] for op in SUBPROC_OPENERS) for u in case["unit"]) or case.get("skind") == "subproc"
